@@ -94,3 +94,45 @@ func Harness_C33_store() {
 		}
 	}
 }
+
+// C33 (concurrent first use): two goroutines each register a counter and record on it, the engine
+// being free to switch between them at every operation of the metric maps (bounded preemption).
+// Whatever the interleaving, the counter ends at the number of recorded increments: a registration
+// never discards what another goroutine has already recorded.
+// Natively the Go scheduler decides; the racing section is repeated many times so that a losing
+// interleaving shows up.
+func Harness_C33_concurrent() {
+	zz.MustCover("(*github.com/honeycombio/refinery/metrics.MultiMetrics).Register",
+		"(*github.com/honeycombio/refinery/metrics.MultiMetrics).Increment")
+	zz.Bound("goroutines", 2)
+	zz.Bound("preemptions", 3)
+	kind := zz.Choose("kind", 2)
+	rounds := 1
+	if !zz.InEngine() {
+		rounds = 3000
+	}
+	allCounted := true
+	for r := 0; r < rounds; r++ {
+		m := NewMultiMetrics()
+		zz.PreemptAtSync(3)
+		done := make(chan struct{}, 2)
+		body := func() {
+			if kind == 0 {
+				m.Register(Metadata{Name: "c", Type: Counter})
+				m.Increment("c")
+			} else {
+				m.Register(Metadata{Name: "c", Type: UpDown})
+				m.Up("c")
+			}
+			done <- struct{}{}
+		}
+		go body()
+		go body()
+		<-done
+		<-done
+		zz.PreemptAtSync(0)
+		v, ok := m.Get("c")
+		allCounted = allCounted && ok && v == 2
+	}
+	zz.Assert(allCounted, "what two goroutines record on a metric they both register is all counted")
+}
